@@ -14,7 +14,7 @@ from pyvc import contract, prims, timestamp
 from pyvc.contract import LoopSpec, Outcome, Spec
 from pyvc.engine import ContractStale, bytes_num
 from pyvc.ground import All
-from pyvc.values import (B, I, NONE, VBool, VBytes, VInt, VNone, VOpaque, VRef, VStr, VTuple, fresh_name)
+from pyvc.values import (B, I, NONE, Obj, VBool, VBytes, VInt, VNone, VOpaque, VRef, VStr, VTuple, fresh_name)
 
 from . import fsmodel as M
 from .common import inst
@@ -181,8 +181,14 @@ class ScanForward(ScanSpec):
 
     def outcomes(self, c, E):
         outs = ScanSpec.outcomes(self, c, E)
-        # running off the end (no transaction in the range) surfaces as the short-read error of the header reader
-        return outs + [Outcome('past-the-end', 'raise', M.CorruptedDataError)]
+        g = c.ghost['it']
+        arr, isB, eof, start = g['arr'], g['isB'], g['eof'], g['start']
+        pos = E['pos'].t
+        # running off the end surfaces as the short-read error of the header reader - ONLY when no transaction from
+        # pos on is in the range (the caller, _skip_to_start, has seen the last tid > start)
+        nothing = All(['bpos'], lambda b: z3.Implies(z3.And(z3.Select(isB, b), b >= pos, b < eof),
+                                                     be(arr, b, 8) < start))
+        return outs + [Outcome('past-the-end', 'raise', M.CorruptedDataError, guard=lambda cc, E: nothing)]
 
 
 SPECS = [ScanBackward, ScanForward]
@@ -598,3 +604,54 @@ class FileIteratorNext(ScanSpec):
 
 SPECS.append(FileIteratorNext)
 INLINE += ['ZODB.FileStorage.format:TxnHeader.headerlen']
+
+
+# ======================================================================================
+class SkipToStart(ScanSpec):
+    """FileIterator._skip_to_start(start) (run by the constructor when a start tid is given, from position 4): whatever
+    the relation of start to the first and the last tid, and WHICHEVER direction the time-distance heuristic picks
+    (the two time differences are arbitrary numbers here), the iterator ends up at the first transaction with
+    tid >= start - at the end of the file if there is none.  The scans are used through their contracts above."""
+    func = FI + '._skip_to_start'
+    props = ('C17',)
+    assumptions = tuple(timestamp.ASSUMPTIONS) + (
+        'TimeStamp(tid).timeTime() is an arbitrary number (only the choice of the scan direction depends on it)',)
+
+    def setup(self, c, case=None):
+        a = ScanSpec.setup(self, c, case)
+        g = c.ghost['it']
+        S = c.obj(g['me']).f
+        S['_pos'] = VInt(z3.IntVal(4))
+        g['pos0'] = z3.IntVal(4)
+        return {'self': g['me'], 'start': a['start']}
+
+    def requires(self, c, E):
+        g = c.ghost['it']
+        return self.tiling(c) + [('at-least-one-transaction', g['eof'] > 4),
+                                 ('file-size-attribute-is-the-size', c.obj(g['me']).f['_file_size'].t == g['eof'])]
+
+    def hooks(self, c):
+        def binop(cc, op, a, b, node):
+            if isinstance(a, VOpaque) and a.tag == 'float' and isinstance(b, VOpaque) and b.tag == 'float':
+                return VOpaque(z3.Const(fresh_name('float'), Obj), 'float')
+            return None
+
+        def compare(cc, op, a, b, node):
+            if isinstance(a, VOpaque) and a.tag == 'float' and isinstance(b, VOpaque) and b.tag == 'float':
+                return z3.Bool(fresh_name('nearer_to_the_start'))
+            return None
+        hk = {'binop': binop, 'compare': compare}
+        timestamp.install(hk)
+        return hk
+
+    def modifies(self, c, E):
+        g = c.ghost['it']
+        return {(g['f'].id, 'pos'), (g['me'].id, '_pos')}
+
+    def outcomes(self, c, E):
+        outs = ScanSpec.outcomes(self, c, E)
+        return outs
+
+
+SPECS.append(SkipToStart)
+INLINE += ['ZODB.FileStorage.format:FileStorageFormatter._read_num']
